@@ -25,6 +25,9 @@ MODELS = {
                       names={'inp': 'Sheet1!$B$1'}, inputs=['A1', 'B1']),
     'sheets': dict(cells={'Sheet1!A1': 4, 'Data!A1': 10, 'Data!B1': '=A1*2', 'Sheet1!B1': '=Data!B1+A1', 'Sheet1!C1': '=B1+Data!A1'},
                    names={'inp': 'Data!$A$1'}, inputs=['Sheet1!A1', 'Data!A1']),
+    # Q9 holds nothing when the model is built: a cell that receives its first value later
+    'late': dict(cells={'A1': 1, 'B1': '=A1+Q9', 'C1': '=B1*2', 'D1': '=IF(ISBLANK(Q9),"none",Q9)'},
+                 names={'inp': 'Sheet1!$A$1'}, inputs=['A1'], late=['Q9']),
 }
 VALUES = [5, 7.5]
 
@@ -39,6 +42,8 @@ def ops_for(m):
     for inp in spec['inputs']:
         for v in spec.get('values', VALUES[:1 if len(spec['inputs']) > 2 else 2]):
             ops.append(('set', full(inp), v))
+    for inp in spec.get('late', []):
+        ops.append(('set', full(inp), 6))
     ops.append(('setname', 'inp', 9))
     for c in spec['cells']:
         for e in (0, 1):
@@ -139,7 +144,8 @@ def oracle_history(c):
     for a in exp_consts:
         if a in inputs and (model.cells[a].value != inputs[a] or type(model.cells[a].value) is not type(inputs[a])):
             return False, f'constant {a} holds the last value set ({inputs[a]})', repr(model.cells[a].value)
-    if sorted(model.cells) != cells_before:
+    late = {full(k) for k in spec.get('late', [])}
+    if sorted(set(model.cells) - late) != sorted(set(cells_before) - late):
         return False, 'set of cells unchanged', sorted(model.cells)
     if sorted(model.defined_names) != sorted(spec['names']):
         return False, 'defined names unchanged', sorted(model.defined_names)
